@@ -7,7 +7,6 @@ NA = {
  "C02": "Equality of the accept/reject decision with FIPS 204 Verify needs a spec-literal reference and boundary inputs that must be constructed (norm exactly gamma1-beta, weight exactly omega, aligned NTT residues); canonical channel faults never produce them. Pure function of its input.",
  "C03": "Byte-equality with FIPS 204 Sign needs an independent reference implementation; the only seam clause (the 32 bytes come from the caller's generator and nothing else varies) is observed inside C12 (I4, I6) but cannot stand for the property.",
  "C04": "Equality with KeyGen_internal needs a reference implementation; try_keygen_with_rng and keygen_from_seed share one code path, so comparing them to each other decides none of the rare-sample cases the property is about. Pure function of the seed.",
- "C07": "A pure function of the context length; no seam, fault or interleaving is involved.",
  "C15": "Exactness of scalar arithmetic on whole domains is exhaustive-enumeration/proof territory; there is no nondeterminism or fault for a simulator to own.",
  "C18": "NTT product correctness and 32-bit overflow freedom for adversarial vectors is algebraic; needs constructed inputs and a big-integer reference, no seam involved.",
 }
@@ -41,6 +40,10 @@ CHECKS = {
    "World simulation with misrouting and framing faults on the channel: an intact signed tuple is delivered (a) to the verifier endpoint of every other mode / pre-hash function, (b) with the concatenation context||message split at another boundary (the classic length-prefix corruption), (c) as the formatted pre-hash input OID||PH(M) presented to the pure ML-DSA endpoint as the message. Every honest public-key replica must reject. Catches a missing context-length byte or a missing domain byte even when signer and verifier share the defect.",
    WORLD_NOTE + " Messages crafted by an adversary to mimic the other mode's formatted input beyond the mechanical OID||PH(M) case, and alignments that must be searched for, are not reached.",
    "deterministic simulation: misrouting / re-framing channel faults over seeded lifecycle histories", "DESIGN.md 4.7"),
+ "C07": chk("C07", "exploration",
+   "World simulation: signing with contexts of 256, 257, 300, 511, 512, 1000 and 65791 bytes must fail in every mode and with every replica; signing with every context length class 0..255 must succeed; an intact tuple replayed by the channel with an over-long context - the original extended by 256 or 512 bytes (same length modulo 256), replaced by 256 or 257 bytes, or re-framed so that the boundary moves by exactly 256 (the aliasing case of the one-byte length field) - must be rejected by every public-key replica.",
+   WORLD_NOTE + " Weak tie to the family (the statement is a function of the context length); what the simulator adds is the replay/re-framing channel fault that exhibits the aliasing when signer and verifier guards disagree. Context lengths are sampled from the listed classes, not enumerated 0..N.",
+   "deterministic simulation: replay / re-framing channel faults with over-long contexts over seeded histories", "DESIGN.md 4.7"),
  "C08": chk("C08", "fault_enumeration",
    "Channel-fault simulation on honest signatures with a reference model of Algorithm 21: every single-bit flip (whole signature on a few, hint section on many signatures), stuck-at bytes, byte reorder and byte duplication inside the hint section (the channel's reorder/duplicate faults at byte granularity), seeded multi-bit rot. Oracle, both directions: sigDecode (verif-hooks wrapper) accepts iff the model accepts the hint section (unsorted or repeated indices, decreasing or excessive counts, non-zero unused bytes are each reached tens of thousands of times), and every accepted byte string re-encodes to itself.",
    "Decides the decoding and re-encoding clauses on byte strings reachable by canonical channel faults from honest signatures (not exhaustive over all byte strings at reduced parameters, as the quantifier also asks); the bijection clause for key encodings is exercised at API level by C09. Needs the add-only feature verif-hooks. Trusts the 25-line model (validated on every honest signature).",
@@ -84,7 +87,7 @@ CHECKS = {
 }
 
 def main():
-    claimed = [p for p in ("C12", "C05", "C10", "C16", "C14", "C17", "C13", "C09", "C11", "C01", "C08", "C06") if p in CHECKS]
+    claimed = [p for p in ("C12", "C05", "C10", "C16", "C14", "C17", "C13", "C09", "C11", "C01", "C08", "C06", "C07") if p in CHECKS]
     hooks_commits = []
     try:
         out = subprocess.run(["git", "-C", "/repo", "log", "--format=%h %s"], stdout=subprocess.PIPE, text=True).stdout
@@ -102,7 +105,7 @@ def main():
             "add_only": True,
         },
         "engines": [
-            {"name": "fipsim", "path": "/verif/sim", "serves_properties": ["C12", "C05", "C10", "C16", "C17", "C13", "C09", "C11", "C01", "C08", "C06"],
+            {"name": "fipsim", "path": "/verif/sim", "serves_properties": ["C12", "C05", "C10", "C16", "C17", "C13", "C09", "C11", "C01", "C08", "C06", "C07"],
              "kind_free_text": "seeded deterministic simulator: SimRng device, SimKernel (getrandom(2) via the libc syscall symbol), object arena, channel/store fault injector; replay from self-contained JSON"},
             {"name": "fipsim-ct", "path": "/verif/ct", "serves_properties": ["C14"],
              "kind_free_text": "trace-recording build of the same simulator (SanitizerCoverage edge + load/store callbacks); oracle = equality of event histories across RNG values"},
